@@ -262,15 +262,16 @@ Proof.
   destruct (perms3_lt _ _ _ Hp) as (L0 & L1 & L2).
   destruct (data_core a n0 n1 n2 rest p0 f0 p1 f1 p2 f2 a' Hwf Hsh Hp Ha)
     as ((Sl & S0 & S1 & S2 & Sr) & Hval & Hex & Hinj).
+  rewrite Hsh in Sl, Hval, Hex.
   assert (Haff : forall idx', in_bounds (ashape a') idx' = true ->
             apply_aff (T_lit p0 p1 p2 (inject_Z f0) (inject_Z f1) (inject_Z f2) (NQ n0) (NQ n1) (NQ n2)) idx'
             = Some (src3 p0 f0 p1 f1 p2 f2 n0 n1 n2 idx')).
   { intros idx' Hb.
-    assert (Hlen := in_bounds_length _ _ Hb). rewrite Sl, Hsh in Hlen. cbn [length] in Hlen.
+    assert (Hlen := in_bounds_length _ _ Hb). rewrite Sl in Hlen. cbn [length] in Hlen.
     destruct idx' as [|x [|y [|z r]]]; try discriminate Hlen.
     rewrite src3_nth by assumption.
     assert (Hlt : forall p, p < 3 -> nth p [x; y; z] 0 < nth p (ashape a') 0).
-    { intros p Lp. pose proof (in_bounds_nth _ _ p Hb ltac:(rewrite Sl, Hsh; cbn [length]; lia)) as G.
+    { intros p Lp. pose proof (in_bounds_nth _ _ p Hb ltac:(rewrite Sl; cbn [length]; lia)) as G.
       destruct p as [|[|[|p]]]; try lia; exact G. }
     apply apply_aff_core; try assumption.
     - rewrite <- S0. apply Hlt, L0.
@@ -309,4 +310,86 @@ Proof.
   split; [apply T_lit_shape, Hp|].
   exists [(p0, f0); (p1, f1); (p2, f2)]. split; [reflexivity|].
   apply T_lit_spec; assumption.
+Qed.
+
+(* ----------------------------------------------------------------------------- C17_codes *)
+
+Lemma col_scaled A A' j k d f :
+  is_flip f = true ->
+  (forall i, i < 3 -> (mentry A' i j == inject_Z f * mentry A i k)%Q) ->
+  dominant A k d -> dominant A' j d /\ sgn A' d j = (sgn A d k * f)%Z.
+Proof.
+  intros Hf H [Hd Hdom].
+  assert (Hsq : forall i, i < 3 -> (sq (mentry A' i j) == sq (mentry A i k))%Q).
+  { intros i Hi. unfold sq. rewrite (H i Hi). unfold is_flip in Hf. apply orb_prop in Hf.
+    destruct Hf as [Hf|Hf]; apply Z.eqb_eq in Hf; subst f.
+    - change (inject_Z 1) with 1%Q. ring.
+    - change (inject_Z (-1)) with (-1 # 1)%Q. ring. }
+  split.
+  - split; [exact Hd|]. intros i Hi Hid. rewrite (Hsq i Hi), (Hsq d Hd). apply Hdom; assumption.
+  - assert (Hpos : (0 < sq (mentry A d k))%Q).
+    { destruct d as [|[|[|d]]]; try lia.
+      + pose proof (Hdom 1 ltac:(lia) ltac:(lia)) as G. pose proof (sq_nonneg (mentry A 1 k)). lra.
+      + pose proof (Hdom 0 ltac:(lia) ltac:(lia)) as G. pose proof (sq_nonneg (mentry A 0 k)). lra.
+      + pose proof (Hdom 0 ltac:(lia) ltac:(lia)) as G. pose proof (sq_nonneg (mentry A 0 k)). lra. }
+    unfold sgn. rewrite (H d Hd). unfold sq in Hpos. set (x := mentry A d k) in *.
+    unfold is_flip in Hf. apply orb_prop in Hf.
+    destruct Hf as [Hf|Hf]; apply Z.eqb_eq in Hf; subst f.
+    + change (inject_Z 1) with 1%Q. rewrite Qmult_1_l, Z.mul_1_r. reflexivity.
+    + change (inject_Z (-1)) with (-1 # 1)%Q.
+      destruct (Qle_bool 0 x) eqn:E1; destruct (Qle_bool 0 ((-1 # 1) * x)) eqn:E2; try reflexivity; exfalso.
+      * apply Qle_bool_iff in E1, E2. assert (x == 0)%Q by lra. rewrite H0 in Hpos. lra.
+      * assert (~ (0 <= x)%Q) by (intros G; apply Qle_bool_iff in G; congruence).
+        assert (~ (0 <= (-1 # 1) * x)%Q) by (intros G; apply Qle_bool_iff in G; congruence). lra.
+Qed.
+
+Lemma upper_valid_len3 code : valid_codeb code = true -> length (axcodes2ornt (upper code)) = 3.
+Proof.
+  unfold valid_codeb, axcodes2ornt. rewrite map_length.
+  destruct (upper code) as [|x [|y [|z [|w l]]]]; try discriminate. reflexivity.
+Qed.
+
+Theorem reorder_codes a A code a' A' T o :
+  unambiguous A ->
+  reorder a A code = Ok (a', A', T, o) ->
+  io_orientation A' = axcodes2ornt (upper code) /\ aff2axcodes A' = map Some (upper code).
+Proof.
+  intros (d0 & d1 & d2 & D0 & D1 & D2 & N01 & N12 & N02) H.
+  pose proof (io_orientation_unamb A d0 d1 d2 D0 D1 D2 N01 N12 N02) as Eio.
+  apply reorder_ok in H as (Hv & Hnd & HA & Ht & Ha & HT & ->).
+  pose proof (valid_in_codes48 _ Hv) as Hc.
+  pose proof (transform_good_in (io_orientation A) (upper code) (io_orientation_ok A) Hc) as G.
+  unfold transform_good in G. rewrite Ht in G.
+  apply andb_prop in G as [G R]. apply andb_prop in G as [Hs _].
+  destruct (is_sperm_inv o Hs) as (p0 & f0 & p1 & f1 & p2 & f2 & -> & Hp & F0 & F1 & F2).
+  destruct (ashape a) as [|n0 [|n1 [|n2 rest]]] eqn:Hsh; cbn [length] in Hnd; try lia.
+  rewrite inv_ornt_aff_lit in HT by exact Hp. injection HT as <-.
+  pose proof (mmul_T_lit_cols A p0 p1 p2 (inject_Z f0) (inject_Z f1) (inject_Z f2) (NQ n0) (NQ n1) (NQ n2) HA Hp) as C.
+  cbv zeta in C. set (A' := mmul A _) in *.
+  destruct (col_scaled A A' p0 0 d0 f0 F0 (fun i Hi => proj1 (C i Hi)) D0) as [E0 S0].
+  destruct (col_scaled A A' p1 1 d1 f1 F1 (fun i Hi => proj1 (proj2 (C i Hi))) D1) as [E1 S1].
+  destruct (col_scaled A A' p2 2 d2 f2 F2 (fun i Hi => proj2 (proj2 (C i Hi))) D2) as [E2 S2].
+  assert (Hio : io_orientation A' = axcodes2ornt (upper code)).
+  { pose proof (upper_valid_len3 code Hv) as Hl.
+    destruct (axcodes2ornt (upper code)) as [|e0 [|e1 [|e2 [|e3 e]]]]; try discriminate Hl.
+    rewrite Eio in R. cbn [combine forallb fst snd rel_row nth] in R.
+    apply andb_prop in R as [R0 R]. apply andb_prop in R as [R1 R]. apply andb_prop in R as [R2 _].
+    clear C Ht Ha Hc Hs.
+    cbn [In perms3] in Hp.
+    repeat (destruct Hp as [Hp|Hp];
+      [injection Hp as <- <- <-; cbn [nth] in R0, R1, R2;
+       repeat match goal with
+              | Rk : match ?e with Some _ => _ | None => false end = true |- _ =>
+                  destruct e as [[? ?]|]; [|discriminate Rk];
+                  apply andb_prop in Rk as [?Ha ?Hb]; apply Nat.eqb_eq in Ha; apply Z.eqb_eq in Hb; subst
+              end;
+       first [ rewrite (io_orientation_unamb A' d0 d1 d2) by auto
+             | rewrite (io_orientation_unamb A' d0 d2 d1) by auto
+             | rewrite (io_orientation_unamb A' d1 d0 d2) by auto
+             | rewrite (io_orientation_unamb A' d1 d2 d0) by auto
+             | rewrite (io_orientation_unamb A' d2 d0 d1) by auto
+             | rewrite (io_orientation_unamb A' d2 d1 d0) by auto ];
+       rewrite ?S0, ?S1, ?S2; reflexivity |]).
+    contradiction. }
+  split; [exact Hio|]. unfold aff2axcodes. rewrite Hio. apply code_axcodes, Hc.
 Qed.
